@@ -254,6 +254,9 @@ def call_builtin(ev, name, args, kwargs, node):
         ev.setattr(args[0], args[1].value, args[2], node)
         return Const(None)
     if name == "hasattr":
+        if isinstance(args[0], Obj) and isinstance(args[1], Const) and isinstance(args[1].value, str):
+            o, n = args[0], args[1].value
+            return Const(n in o.attrs or o.cls.find_method(n) is not None or o.cls.find_assign(n) is not None)
         return App("hasattr", (as_v(ev, args[0]), as_v(ev, args[1])))
     if name == "type":
         o = args[0]
@@ -549,6 +552,16 @@ def np_call(ev, name, args, kwargs, node):
         if len(A) == 3:
             return mk_app("where", [as_v(ev, A[0]), as_v(ev, A[1]), as_v(ev, A[2])])
         return App("nonzero", (as_v(ev, A[0]),))
+    if name == "select":
+        # np.select(condlist, choicelist, default=0): the first true condition wins
+        cl, ch = arg(0, "condlist"), arg(1, "choicelist")
+        dflt = as_v(ev, arg(2, "default", Const(0)))
+        cs, vs = ev.concrete_items(cl), ev.concrete_items(ch)
+        if cs is not None and vs is not None and len(cs) == len(vs):
+            out = dflt
+            for c, v in reversed(list(zip(cs, vs))):
+                out = mk_app("where", [as_v(ev, c), as_v(ev, v), out])
+            return out
     if name in ("sum", "nansum", "min", "max", "amin", "amax"):
         x = arg(0, "a")
         fn = {"min": "amin", "max": "amax"}.get(name, name)
@@ -673,6 +686,39 @@ def call_ext(ev, dotted, args, kwargs, node):
             o = Obj(src.cls, dict(src.attrs))
             o.attrs.update(kwargs)
             return o
+    if dotted in ("copy.copy", "copy.deepcopy") and len(args) >= 1:
+        from .evalr import Obj
+        src = args[0]
+        if isinstance(src, Obj):
+            if dotted == "copy.copy":
+                # shallow: the new instance shares every attribute value (mutable containers included) with the source
+                o = Obj(src.cls, dict(src.attrs))
+                return o
+
+            def deep(v, memo):
+                if id(v) in memo:
+                    return memo[id(v)]
+                if isinstance(v, Obj):
+                    n = Obj(v.cls)
+                    memo[id(v)] = n
+                    n.attrs = {k: deep(x, memo) for k, x in v.attrs.items()}
+                    return n
+                if isinstance(v, Dct):
+                    n = Dct()
+                    memo[id(v)] = n
+                    n.items = {k: deep(x, memo) for k, x in v.items.items()}
+                    n.unknown = v.unknown
+                    return n
+                if isinstance(v, Lst) and not v.pappends and not v.unknown:
+                    n = Lst([deep(x, memo) for x in v.items])
+                    memo[id(v)] = n
+                    return n
+                if isinstance(v, V) and not isinstance(v, (Const, Tup)):
+                    return App("fresh", (v,))
+                return v
+            return deep(src, {})
+        if isinstance(src, V):
+            return App("fresh", (src,)) if not isinstance(src, Const) else src
     if dotted == "warnings.warn":
         ev.event("warn", node=node)
         return Const(None)
@@ -861,7 +907,23 @@ def call_method(ev, recv, name, args, kwargs, node):
             d = Dct(recv.items)
             d.unknown = recv.unknown
             return d
+        if name == "setdefault" and 1 <= len(args) <= 2:
+            from .evalr import ObjDictView
+            k = args[0]
+            dflt = args[1] if len(args) > 1 else Const(None)
+            cur = recv.items
+            if k in cur:
+                return cur[k]
+            if not recv.unknown and (not cur or (isinstance(k, Const) and all(isinstance(x, Const) for x in cur))):
+                if isinstance(recv, ObjDictView):
+                    ev.event("attr_store", obj=recv.obj, attr=k.value, value=dflt, in_init=recv.obj.in_init > 0, node=node, empty=isinstance(dflt, Dct) and not dflt.items)
+                    recv.obj.attrs[k.value] = dflt
+                else:
+                    recv.items[k] = dflt
+                return dflt
         if name in ("update", "pop", "setdefault"):
+            if isinstance(recv, ObjDictView):
+                raise AnalysisError("unmodelled mutation of __dict__ (%s)" % name)
             recv.unknown = True
             return Top("dict mutation")
     if isinstance(recv, Const) and isinstance(recv.value, str):
